@@ -606,6 +606,11 @@ func VerifC07_ScheduleZeroKeepsQueuedTask() {
 		t.StartASAP()
 	}
 	t.Schedule(time.Time{})
+	// (something else is scheduled: the schedule handler looks at the schedule
+	// again) - the queued task keeps waiting for the slot
+	m.NewTask("other", func(context.Context, *Task) error { return nil }).Schedule(time.Now().Add(20 * u))
+	time.Sleep(u / 8)
+	rt.Assert(runs == 0, "schedzero/queued-task-keeps-waiting-for-the-slot")
 	close(gate)
 	time.Sleep(8 * u)
 	rt.Assert(runs >= 1, "schedzero/queued-task-still-executed")
